@@ -229,7 +229,14 @@ def read_requests(project, depth=4, bits="boundary"):
 
     def bits_of(typ, prefix, cls, all_bits):
         w = INT_TYPES[typ]
-        sel = range(w) if (all_bits and w <= 16) else sorted({0, 1, 7, 8, 15, 16, 30, 31, 32, 33, 62, 63} & set(range(w)))
+        base = {0, 1, 7, 8, 15, 16, 30, 31, 32, 33, 62, 63}
+        # bit numbers that share digits with a name ending in digits ('plain2.2', 'plain2.12', 'd1.10', 'word10.0'): text surgery on the request string shows here
+        import re as _re
+        tail = _re.search(r"(\d+)\]?$", prefix.split(".")[-1])
+        if tail:
+            k = int(tail.group(1)[-1])
+            base |= {k, 10 + k, 10 * k % 64, 20 + k, int(tail.group(1)) % 64}
+        sel = range(w) if (all_bits and w <= 16) else sorted(base & set(range(w)))
         for b in sel:
             out.append((f"{prefix}.{b}", cls + "/bit"))
 
